@@ -3300,6 +3300,8 @@ impl KotoVm {
         }
 
         self.unpack_packed_arguments(&mut info)?;
+        // The arguments are now unpacked (this matters when the call is forwarded to `@call`)
+        info.packed_arg_count = 0;
 
         match callable {
             Function(f) => {
